@@ -26,7 +26,7 @@ func init() {
 		ProbeNames: []string{"probe.organism_phenotype_checked", "probe.reexpressed_after_mutation", "probe.organism_had_cached_phenotype", "probe.baby_of_structural_mutation", "probe.genome.disabled_gene", "probe.genome.recurrent_gene", "probe.genome.self_loop", "probe.genome.modular", "probe.genome.disabled_module", "probe.multi_edge_pair"},
 	})
 	Register(&Scenario{
-		Prop: "C12", Run: scenarioC12, QuickRuns: 30000, ThoroughRuns: 750000, Level: "exploration",
+		Prop: "C12", Run: scenarioC12, QuickRuns: 30000, ThoroughRuns: 3000000, Level: "exploration",
 		Rule:       "one run = feed-forward genomes from a seeded evolving world without recurrent links (landscape rewarding structure, activation-type swarm, 0-2 bias nodes) and from the genome builder; every phenotype that is acyclic with all neurons reachable from a sensor is driven with seeded input vectors through the standard solver (ForwardSteps, RecursiveSteps) and the fast solver (ForwardSteps, RecursiveSteps, Relax) for L..L+3 steps (L = longest sensor-to-output path) and compared with the topological-order reference evaluation. State generator only: the statement has no schedule or fault axis (DESIGN.md section 0). A case is one (network, input vector); non-trivial when the network has a hidden node or a bias link of non-zero weight; distinct by (genome shape hash, input seed)",
 		RealParts:  []string{"Network.LoadSensors / ActivateSteps / ForwardSteps / RecursiveSteps, Network.FastNetworkSolver translation, FastModularNetworkSolver ForwardSteps / RecursiveSteps / Relax", "scalar activation functions as trusted primitives of the reference"},
 		StubParts:  []string{"fitness assignment"},
@@ -34,7 +34,7 @@ func init() {
 		ProbeNames: []string{"probe.net.hidden", "probe.net.bias_link_matters", "probe.net.depth>=3", "probe.net.skip_connection", "probe.net.multi_output", "probe.net.nonsigmoid_activation", "probe.reused_after_flush", "probe.reused_without_flush", "probe.net.hand_built_permuted", "probe.net.deep_chain", "probe.net.parallel_links", "skipped.cyclic", "skipped.unreachable_neuron"},
 	})
 	Register(&Scenario{
-		Prop: "C13", Run: scenarioC13, QuickRuns: 30000, ThoroughRuns: 750000, Level: "exploration",
+		Prop: "C13", Run: scenarioC13, QuickRuns: 30000, ThoroughRuns: 4000000, Level: "exploration",
 		Rule:       "one run = networks (feed-forward, recurrent, self-loops) expressed from genomes of a seeded evolving world; each is a stateful node: a tape-drawn activation history (sensor loads, Activate, ActivateSteps with too few steps so that the wave is cut by an error, ForwardSteps, RecursiveSteps, Relax, depth queries incl. capped ones) is followed by Flush - a restart that keeps only durable state (topology, weights) - and then a tape-drawn sequence whose every result, error and output vector must be bit-identical to the same sequence on a fresh instance. Standard network and fast solver. A case is one (network, history, sequence); non-trivial when the network has a recurrent link or a cycle; distinct by (genome shape hash, history hash)",
 		RealParts:  []string{"Network.Flush / NNode.Flushback, FastModularNetworkSolver.Flush and all activation entry points of both solvers"},
 		StubParts:  []string{"fitness assignment"},
@@ -43,7 +43,7 @@ func init() {
 		ProbeNames: []string{"probe.net.recurrent_link", "probe.net.self_loop", "probe.net.cyclic", "probe.history.nonempty", "probe.fast_solver", "probe.standard_network", "probe.modular_network"},
 	})
 	Register(&Scenario{
-		Prop: "C14", Run: scenarioC14, QuickRuns: 30000, ThoroughRuns: 750000, Level: "exploration", CrashIsViolation: true,
+		Prop: "C14", Run: scenarioC14, QuickRuns: 30000, ThoroughRuns: 4000000, Level: "exploration", CrashIsViolation: true,
 		Rule:       "one run = networks with hidden nodes expressed from genomes of a seeded evolving world (acyclic ones from recurrence-free worlds, cyclic ones otherwise) and from the genome builder; acyclic: MaxActivationDepth must equal the dynamic-programming longest path ending in an output; cyclic: the query terminates with 0 <= depth <= node count; caps: equal to the uncapped answer when that does not exceed the cap, else (cap, depth-exceeded error); query histories (capped -> uncapped -> capped ..., interleaved with activations): every answer must equal the answer of a fresh network, so an aborted (capped) query must leave no traversal marks. A worker crash by stack overflow or a hang inside a run is reported as non-termination. A case is one (network, query history); non-trivial when the history contains a capped query that hit the cap; distinct by (genome shape hash, history hash)",
 		RealParts:  []string{"Network.MaxActivationDepth / MaxActivationDepthWithCap, NNode.Depth"},
 		StubParts:  []string{"fitness assignment"},
